@@ -34,6 +34,7 @@ LINKAGES = ("private", "internal", "available_externally", "linkonce", "weak", "
 MERGEABLE = ("linkonce", "weak", "linkonce_odr", "weak_odr", "common", "available_externally")
 LOCAL = ("private", "internal")
 RE_SYNTH = re.compile(r'(\._llgo_routine\$\d+|\$bound|\$thunk)$')
+RE_PNAME = re.compile(r'^(.*\S)\s+%(?:' + NAME + r')$')
 PARAM_ATTRS = re.compile(r'\b(noundef|nocapture|readonly|writeonly|readnone|signext|zeroext|immarg|nonnull|noalias|returned|'
                          r'nofree|nosync|inreg|swiftself|align \d+|dereferenceable\(\d+\)|dereferenceable_or_null\(\d+\))\b')
 
@@ -100,7 +101,10 @@ def norm_sig(pre, params):
     out = []
     for p in ps:
         p = PARAM_ATTRS.sub("", p)
-        p = re.sub(r'\s%(' + NAME + r')\s*$', "", " " + p.strip() + " ")
+        p = p.strip()
+        mt = RE_PNAME.match(p)
+        if mt:
+            p = mt.group(1)
         out.append(" ".join(p.split()))
     return " ".join(ret.split()) + " (" + ", ".join(out) + ")"
 
@@ -161,7 +165,7 @@ def parse_module(path):
             body = " ".join(toks[k:])
             body = re.sub(r',\s*align \d+\s*$', "", body)
             if toks[0] in ("external", "extern_weak") and toks[k] in ("global", "constant"):
-                m.decls[name] = ("var", " ".join(toks[k + 1:]).split(",")[0].strip())
+                m.decls[name] = ("var", var_type(" ".join(toks[k + 1:])))
             else:
                 vt = var_type(" ".join(toks[k + 1:]))
                 m.defs[name] = Def(name, "var", linkage, body, vt, m)
@@ -186,8 +190,8 @@ def var_type(s):
         return s
     if s[0] == "%":
         mt = re.match(r'%(' + NAME + r')', s)
-        return mt.group(0) if mt else s.split()[0]
-    return s.split()[0]
+        return mt.group(0) if mt else s.split()[0].rstrip(",")
+    return s.split()[0].rstrip(",")
 
 
 def system_symbols():
@@ -232,6 +236,14 @@ class Table:
         key = (d.module.path, d.name)
         if key in stack:
             return "CYCLE"
+        txt = self.canon_text(d, stack)
+        c = h(txt)
+        if "CYCLE" not in txt:
+            d._canon = c
+        return c
+
+    def canon_text(self, d, stack=()):
+        key = (d.module.path, d.name)
         m = d.module
         txt = d.text
         txt = re.sub(r'\s#\d+', "", txt)
@@ -248,11 +260,32 @@ class Table:
             if t is not None and (t.linkage in LOCAL or (t.linkage == "external" and t.kind == "func" and RE_SYNTH.search(r))):
                 return "@<%s:%s>" % ("P" if t.linkage in LOCAL else "S", self.canon(t, stack + (key,)))
             return "@" + mt.group(1)
-        txt = RE_REF.sub(rep, txt)
-        c = h(txt)
-        if "CYCLE" not in txt:
-            d._canon = c
-        return c
+        return RE_REF.sub(rep, txt)
+
+    RE_STR = re.compile(r'runtime\.String" \{ ptr @<P:[0-9a-f]+>, i64 \d+ \}')
+    RE_PTT = re.compile(r'(runtime\.String" \{ ptr @<P:[0-9a-f]+>, i64 \d+ \}, )(ptr null|ptr getelementptr inbounds \(%"github.com/goplus/llgo/runtime/abi.PtrType", ptr @"\*[^"]*", i32 0, i32 0\))( \})')
+
+    def classify_merge(self, defs):
+        """narrow code-level classes of known descriptor differences (findings/C14.json); None = anything else"""
+        texts = [self.canon_text(d) for d in defs]
+        head = texts[0][:400]
+        if all(d.kind == "var" for d in defs):
+            if 'abi.InterfaceType"' in head.split("{ i64")[0]:
+                # InterfaceType.PkgPath_ (the 2nd String of the descriptor) is the path of the package that emitted the copy
+                def mask(t):
+                    ms = list(self.RE_STR.finditer(t))
+                    if len(ms) < 2:
+                        return t
+                    return t[:ms[1].start()] + "<PKGPATH>" + t[ms[1].end():]
+                if len({mask(t) for t in texts}) == 1:
+                    return "iface-pkgpath"
+            if 'abi.PtrType"' in head.split("{ i64")[0]:
+                # Type.PtrToThis_ of a pointer descriptor: nil, or **T when the pointer type was reached through an alias
+                def mask2(t):
+                    return self.RE_PTT.sub(lambda m: m.group(1) + "<PTRTOTHIS>" + m.group(3), t, count=1)
+                if len({mask2(t) for t in texts}) == 1:
+                    return "alias-ptrtothis"
+        return None
 
     def refs_of(self, d):
         if d.refs is None:
@@ -275,6 +308,8 @@ class Table:
                  "decl_unreferenced": 0, "strong_names": 0}
         for name in sorted(self.by_name):
             ds = self.by_name[name]
+            if name.startswith("llvm."):
+                continue      # @llvm.used / @llvm.compiler.used: appending linkage, merged by concatenation
             vis = [d for d in ds if d.linkage not in LOCAL]
             if len(ds) > len(vis) and len(ds) > 1:
                 stats["private_repeats"] += 1
@@ -303,7 +338,8 @@ class Table:
                 if len(hs) > 1:
                     groups = sorted(hs.values(), key=lambda g: (-len(g), g[0].module.src))
                     a, b = groups[0][0], groups[1][0]
-                    probs.append(("merge-differs", name, "mergeable symbol @%s (%s) has %d different bodies in %d modules; e.g. %s vs %s" % (
+                    sub = self.classify_merge([g[0] for g in groups])
+                    probs.append(("merge-differs" + (":" + sub if sub else ""), name, "mergeable symbol @%s (%s) has %d different bodies in %d modules; e.g. %s vs %s" % (
                         name, "/".join(sorted({d.linkage for d in vis})), len(hs), len(vis), a.module.src, b.module.src), (a, b)))
         # declarations
         referenced = {}
